@@ -73,6 +73,8 @@ static void fill_image(unsigned char *p, int w, int h, int ps, int kind, uint64_
     case 5: v = ((x / 3 + y / 2) & 1) ? 250 + (rnd() % 6) : (rnd() % 6); break; /* hard edges */
     case 7: v = 112 + (unsigned)(rnd() & 31); break;                     /* low contrast noise */
     case 8: v = 112 + ((x * 3 + y * 5 + c * 7) & 31); break;              /* low contrast gradient */
+    case 9: { unsigned lo = (unsigned)(seed % 64), hi = lo + 128 + (unsigned)((seed >> 8) % (128 - lo)); v = ((y / 2) & 1) ? hi : lo; } break;  /* 2-on/2-off horizontal stripes, contrast >= 128, every channel equal */
+    case 10: { unsigned lo = (unsigned)(seed % 100), hi = 255 - (unsigned)((seed >> 8) % 28); int r8 = y & 7; v = (r8 < 2 || r8 > 5) ? hi : lo; } break;  /* rows {0,1,6,7} vs {2..5} of each block */
     default: v = (unsigned)((x * x + y * c) >> 2); break;
     }
     p[((size_t)y * w + x) * ps + c] = (unsigned char)v;
@@ -207,6 +209,57 @@ static void libjpeg_line(char *line)
   free(jpg); free(src); free(dst); putchar('\n');
 }
 
+/* s <w> <h> <q> <fancy> <kind> <seed> <ocs> <cropx> <cropw> h0 v0 h1 v1 h2 v2 | op op ...
+   a decompression HISTORY through the libjpeg API: optional jpeg_crop_scanline(cropx, cropw), then ops
+   rN = read N scanlines (one at a time), sN = jpeg_skip_scanlines(N); the rest of the image is read at the end.
+   Prints a hash per read op.  The three SIMD levels must deliver identical rows for the same history. */
+static void history_line(char *line)
+{
+  int w, h, q, fancy, kind, ocs, cropx, cropw, hv[6], n, i, pos = 0; unsigned long long seed;
+  struct jpeg_compress_struct c; struct jpeg_decompress_struct d; struct jpeg_error_mgr e;
+  unsigned char *src, *jpg = NULL, *rowbuf; unsigned long jlen = 0; JSAMPROW row; char *p;
+  n = sscanf(line, "s %d %d %d %d %d %llu %d %d %d %d %d %d %d %d %d%n", &w, &h, &q, &fancy, &kind, &seed, &ocs, &cropx, &cropw,
+             hv, hv + 1, hv + 2, hv + 3, hv + 4, hv + 5, &pos);
+  if (n < 15) { puts("?"); return; }
+  p = strchr(line, '|'); if (!p) { puts("?"); return; } p++;
+  src = amalloc((size_t)w * h * 3); fill_image(src, w, h, 3, kind, seed);
+  c.err = jpeg_std_error(&e); e.error_exit = jerr_exit;
+  if (setjmp(jerr_jb)) { printf("enc-error %d\n", e.msg_code); jpeg_destroy_compress(&c); free(src); return; }
+  jpeg_create_compress(&c); jpeg_mem_dest(&c, &jpg, &jlen);
+  c.image_width = w; c.image_height = h; c.input_components = 3; c.in_color_space = JCS_RGB;
+  jpeg_set_defaults(&c); jpeg_set_quality(&c, q, TRUE);
+  for (i = 0; i < 3; i++) { c.comp_info[i].h_samp_factor = hv[2 * i]; c.comp_info[i].v_samp_factor = hv[2 * i + 1]; }
+  jpeg_start_compress(&c, TRUE);
+  while (c.next_scanline < c.image_height) { row = src + (size_t)c.next_scanline * w * 3; jpeg_write_scanlines(&c, &row, 1); }
+  jpeg_finish_compress(&c); jpeg_destroy_compress(&c);
+  printf("enc %lu %016llx", jlen, (unsigned long long)fnv(FNV0, jpg, jlen));
+  rowbuf = amalloc((size_t)w * 4 + 64);
+  d.err = jpeg_std_error(&e); e.error_exit = jerr_exit;
+  if (setjmp(jerr_jb)) { printf(" dec-error%d\n", e.msg_code); jpeg_destroy_decompress(&d); free(jpg); free(src); free(rowbuf); return; }
+  jpeg_create_decompress(&d); jpeg_mem_src(&d, jpg, jlen); jpeg_read_header(&d, TRUE);
+  d.do_fancy_upsampling = fancy; d.out_color_space = (J_COLOR_SPACE)ocs; d.dct_method = JDCT_ISLOW;
+  jpeg_start_decompress(&d);
+  if (cropw > 0) { JDIMENSION xo = cropx, cw = cropw; jpeg_crop_scanline(&d, &xo, &cw); printf(" crop%u+%u", xo, cw); }
+  for (;;) {
+    char op; int cnt, adv = 0; uint64_t hsh = FNV0; unsigned start = d.output_scanline;
+    while (*p == ' ') p++;
+    if (sscanf(p, "%c%d%n", &op, &cnt, &adv) < 2 || (op != 'r' && op != 's')) { op = 'r'; cnt = 1 << 20; adv = 0; }
+    p += adv;
+    if (d.output_scanline >= d.output_height) break;
+    if (op == 's') { unsigned got = jpeg_skip_scanlines(&d, cnt); printf(" s@%u:%u", start, got); }
+    else {
+      int k; for (k = 0; k < cnt && d.output_scanline < d.output_height; k++) {
+        memset(rowbuf, 0, (size_t)w * 4); row = rowbuf; jpeg_read_scanlines(&d, &row, 1);
+        hsh = fnv(hsh, rowbuf, (size_t)d.output_width * d.output_components);
+      }
+      printf(" r@%ux%u:%016llx", start, d.output_scanline - start, (unsigned long long)hsh);
+    }
+    if (adv == 0) break;
+  }
+  jpeg_finish_decompress(&d); jpeg_destroy_decompress(&d);
+  free(jpg); free(src); free(rowbuf); putchar('\n');
+}
+
 /* ------------------------------------------------------------------ kernel */
 static int cs_ps(int cs)
 {
@@ -329,14 +382,19 @@ static void bulk(char *p)
       for (k = 0; k < (w + 1) / 2; k++) { B[2][k] = (u8)rnd(); B[3][k] = (u8)rnd(); }
       if (w % 9 == 0) for (k = 0; k < (w + 1) / 2; k++) { B[2][k] = (k & 1) ? 255 : 0; B[3][k] = (k & 2) ? 255 : 0; }
       memset(B[4], 0x55, 2048); memset(B[5], 0x55, 2048);
+      if (v2 == 2) {       /* both output rows are the same buffer */
+        c05_merged(1, 1, cs, B[0], B[1], B[2], B[3], B[4] + off, B[4] + off, w);
+        c05_merged(0, 1, cs, B[0], B[1], B[2], B[3], B[5] + off, B[5] + off, w);
+      } else {
       c05_merged(1, v2, cs, B[0], B[1], B[2], B[3], B[4] + off, B[4] + 1024 + off, w);
       c05_merged(0, v2, cs, B[0], B[1], B[2], B[3], B[5] + off, B[5] + 1024 + off, w);
+      }
       if (ps == 4 && (cs == JCS_EXT_RGBX || cs == JCS_EXT_BGRX || cs == JCS_EXT_XBGR || cs == JCS_EXT_XRGB)) {
         int ro, go, bo; cs_offsets(cs, &ro, &go, &bo);
         for (k = 0; k < w; k++) { int xo = 6 - ro - go - bo; B[4][off + k * 4 + xo] = 0; B[5][off + k * 4 + xo] = 0; B[4][1024 + off + k * 4 + xo] = 0; B[5][1024 + off + k * 4 + xo] = 0; }
       }
-      bulk_cmp(&r, B[4] + off, B[5] + off, (size_t)w * ps, "kernel=h2v%d_merged cs=%d width=%d out_off=%d row=0", v2 ? 2 : 1, cs, w, off);
-      if (v2) bulk_cmp(&r, B[4] + 1024 + off, B[5] + 1024 + off, (size_t)w * ps, "kernel=h2v2_merged cs=%d width=%d out_off=%d row=1", cs, w, off);
+      bulk_cmp(&r, B[4] + off, B[5] + off, (size_t)w * ps, "kernel=h2v%d_merged%s cs=%d width=%d out_off=%d row=0", v2 ? 2 : 1, v2 == 2 ? " (aliased output rows)" : "", cs, w, off);
+      if (v2 == 1) bulk_cmp(&r, B[4] + 1024 + off, B[5] + 1024 + off, (size_t)w * ps, "kernel=h2v2_merged cs=%d width=%d out_off=%d row=1", cs, w, off);
     }
   } else if (!strcmp(what, "down")) {     /* a = v2, c2 = seed : image widths 1..300 */
     int v2 = (int)a, iw, rep;
@@ -457,8 +515,11 @@ static void bulk(char *p)
       }
       if (mode == 0 && (it & 1)) for (k = 0; k < 64; k++) d1[k] = d2[k] = (short)((((k & 7) / 3 + (k >> 3) / 2 + it) & 1) ? 122 + (int)(rnd() % 6) : -128 + (int)(rnd() % 6));
       if (b2 == 1) for (k = 0; k < 64; k++) d1[k] = d2[k] = (short)(d1[k] / 8);     /* low amplitude: |sample - 128| <= 16 */
+      if (b2 == 2) { short lv[8]; for (k = 0; k < 8; k++) lv[k] = (short)((it % 3 == 0) ? ((rnd() & 1) ? 127 : -128) : (int)(rnd() & 255) - 128);
+        if (it % 5 == 0) for (k = 0; k < 8; k++) lv[k] = (short)(((k / 2 + it) & 1) ? 127 : -128);
+        for (k = 0; k < 64; k++) d1[k] = d2[k] = lv[k >> 3]; }                       /* constant rows, any contrast */
       if (a == 0) { jsimd_fdct_islow(d1); jpeg_fdct_islow(d2); } else { jsimd_fdct_ifast(d1); jpeg_fdct_ifast(d2); }
-      bulk_cmp(&r, d1, d2, 128, "kernel=fdct_%s amplitude=%s block=%d pattern=%d (byte/2 = coefficient index)", a ? "ifast" : "islow", b2 ? "low" : "full", it, mode);
+      bulk_cmp(&r, d1, d2, 128, "kernel=fdct_%s amplitude=%s block=%d pattern=%d (byte/2 = coefficient index)", a ? "ifast" : "islow", b2 == 1 ? "low" : b2 == 2 ? "constant-rows" : "full", it, mode);
     }
   } else if (!strcmp(what, "idct")) {     /* a: 0 islow 1 ifast 2 4x4 3 2x2 ; b2: 0 = blocks a real encoder produces, 1 = arbitrary coefficients */
     static const short aanscales[64] = {
@@ -478,6 +539,7 @@ static void bulk(char *p)
           case 2: v = ((k + it) & 1) ? 127 : -128; break; case 3: v = ((k >> 3) * 9 + (k & 7) * 5 + it) % 256 - 128; break;
           case 4: v = (it & 64) ? 127 : -128; break; default: v = (((k >> 3) > 3) ^ ((k & 7) > (it & 7))) ? 120 + (int)(rnd() % 8) : -128 + (int)(rnd() % 8); }
         if (b2 == 2) { v /= 8; if (qv > 16) qv = 1 + qv % 16; }
+        if (b2 == 3) { v = ((((k >> 3) / 2 + it) & 1) ? 127 - (int)(it % 7) : -128 + (int)(it % 5)); if (it & 1) v = (((k >> 3) * 37 + it * 11) % 256) - 128; }
         ws[k] = (short)v; coef[k] = (short)qv;      /* coef temporarily holds the quantisation value */
       }
       if (b2 != 1) {
@@ -538,11 +600,11 @@ static void kernel_line(char *line)
     while (*p == ' ') p++; if (*p == '|') p++;
     readlist(&p, B[0], MAXW); readlist(&p, B[1], MAXW); readlist(&p, B[2], MAXW); readlist(&p, B[3], MAXW);
     for (s = 1; s >= 0; s--) {
-      u8 *o0 = B[4] + off, *o1 = B[5] + off;
+      u8 *o0 = B[4] + off, *o1 = (v2 == 2) ? o0 : B[5] + off;      /* v2 == 2: aliased output rows, as jpeg_skip_scanlines() passes them */
       printf(s ? "S" : " | C");
-      c05_merged(s, v2, cs, B[0], B[1], B[2], B[3], o0, o1, w);
+      c05_merged(s, v2 != 0, cs, B[0], B[1], B[2], B[3], o0, o1, w);
       for (i = 0; i < w; i++) printf(" %d %d %d", o0[i * ps + ro], o0[i * ps + go], o0[i * ps + bo]);
-      if (v2) for (i = 0; i < w; i++) printf(" %d %d %d", o1[i * ps + ro], o1[i * ps + go], o1[i * ps + bo]);
+      if (v2 == 1) for (i = 0; i < w; i++) printf(" %d %d %d", o1[i * ps + ro], o1[i * ps + go], o1[i * ps + bo]);
     }
     putchar('\n');
   } else if (!strcmp(cmd, "down")) {
@@ -619,7 +681,7 @@ int main(int argc, char **argv)
   setvbuf(stdout, NULL, _IOLBF, 0);
   if (argc < 2) return 2;
   if (!strcmp(argv[1], "codec")) {
-    while (fgets(line, sizeof(line), stdin)) { if (line[0] == 'p') patched_line(line); else if (line[0] == 'j') libjpeg_line(line); else codec_line(line); }
+    while (fgets(line, sizeof(line), stdin)) { if (line[0] == 'p') patched_line(line); else if (line[0] == 'j') libjpeg_line(line); else if (line[0] == 's') history_line(line); else codec_line(line); }
     return 0;
   }
   if (!strcmp(argv[1], "kernel")) {
